@@ -213,11 +213,31 @@ def model_lines(scn):
     return ["reset " + cfg_words(scn["cfg"])] + ["ev " + e for e in scn["events"]]
 
 
+def monitor_obs(steps):
+    """Per step, the observations as the monitors see them.  A delayed call of a kind the model does not have
+    (`setTimer <id> other …`: the implementation's private business, already reported as a model/implementation
+    disagreement) is not part of the monitors' alphabet; what the implementation DOES when it fires is."""
+    other = set()
+    out = []
+    for s in steps:
+        obs = []
+        for o in s["obs"]:
+            w = o.split()
+            if len(w) >= 3 and w[0] == "setTimer" and w[2] == "other":
+                other.add(w[1])
+                continue
+            if len(w) == 2 and w[0] == "cancelTimer" and w[1] in other:
+                continue
+            obs.append(o)
+        out.append(obs)
+    return out
+
+
 def monitor_lines(scn, steps, pid):
     out = ["mon-reset " + cfg_words(scn["cfg"])]
-    for s in steps:
+    for s, mobs in zip(steps, monitor_obs(steps)):
         out.append("mon-ev " + s["ev"])
-        for o in s["obs"]:
+        for o in mobs:
             out.append("mon-ob " + o)
         out.append("mon-" + s["snap"])
     out.append("mon-end " + pid)
